@@ -14,7 +14,9 @@ CHECKS = {
             "3 cids, all nine public methods) run to closure on the real FileHashStore; every transition is checked "
             "against a reference model and an independent abstraction of the directory tree. Alignment sweep: reference lists whose "
             "line ends fall on EVERY character offset 1..10240 (filler pid of every length 1..1024 followed by 1024-character "
-            "lines; thorough: also with two-byte characters), audited after every one of 24 calls per list.",
+            "lines; thorough: also with two-byte characters), audited after every one of 24 calls per list. Boundary windows: a "
+            "target pid of 1- to 4-byte characters whose line starts / ends at every byte offset B-8..B+8 for block sizes B = 4 KiB .. "
+            "128 KiB (thorough: 1 MiB), stored there directly and moved there by a delete.",
             "Trusted: the reference model (written from the property text), the independent layout implementation, "
             "tmpfs semantics. Bounded by the alphabet; closure means every history of any length over it.",
             "explicit-state model checking of the implementation (BFS to fixpoint, reference-model oracle)", "4/C05"),
@@ -26,7 +28,8 @@ CHECKS.update({
     "C01": ("E+S", "model_checking",
             "Complete product sizes (0, 1, around every multiple of both read-buffer sizes, multi-buffer) x 12 kinds of data "
             "argument (str, Path, file stream at 4 offsets, fd-backed stream, BytesIO / BufferedReader(BytesIO) at several "
-            "offsets) x store algorithms, plus explicit-state BFS to closure in which witness pids must keep retrieving "
+            "offsets; streams with pending writes, gzip streams, failing streams, streams answering with SHORT READS) x store "
+            "algorithms, plus explicit-state BFS to closure in which witness pids must keep retrieving "
             "their exact bytes after every history of calls on other pids (the other pids include suffix / prefix relatives "
             "of the witnesses). Environment answers: every raw write(2) of a store, in turn, is a SHORT write - a store "
             "that reports success must still retrieve the exact bytes, size and digests. Sizes include the thresholds of a "
@@ -100,7 +103,9 @@ CHECKS.update({
             "choice is explored), every interleaving: no state without an enabled thread, all locked lists empty at the "
             "end, eight follow-up calls on the identifiers complete; four-call scenarios with two identifiers per condition "
             "family (pre-emption bound 2); a READ-ONLY call (retrieve_object, get_hex_digest, retrieve_metadata) between two "
-            "writers of the same identifier (quick: 8 triples, thorough: the product of writers x readers x writers per family). "
+            "writers of the same identifier (quick: 8 triples, thorough: the product of writers x readers x writers per family); one "
+            "injected I/O error in one of two overlapping calls - every fault-site class x every interleaving, including a "
+            "delete-all over two documents as the failing call. "
             "Engine F: an I/O error at every fault site of every "
             "call of the C13 table, then lists empty and follow-up calls on the same instance complete.",
             T_NOTE + " Triples are pre-emption bounded (2).",
@@ -153,7 +158,8 @@ CHECKS.update({
             "shared lists are scheduling points; Manager().list() is modelled as a PROXY with the exposed methods of ListProxy only - "
             "no __iter__, every round trip atomic on its own - and compared with the real proxy in the self-test), same oracles. "
             "Single I/O faults are injected in both modes and must give "
-            "the same outcome and state. A sampled conformance run with REAL forked processes must terminate with nothing locked.",
+            "the same outcome and state. Two sampled conformance runs with REAL forked processes (workers forked up front; workers "
+            "replaced after every task, i.e. forked while others hold identifiers) must terminate with nothing locked and no internal error.",
             T_NOTE + " Real forked processes and the real multiprocessing primitives are exercised only by the sampled "
             "conformance self-test. Mode at initialisation: several stores initialised in one interpreter with alternating "
             "settings (same and different directories) must each synchronise through the primitives of their own setting. "
